@@ -7,6 +7,8 @@ first frame inside /repo, and whose replay file is the saved report.
   kind "miri": cargo +nightly miri run (tree borrows, isolation off), one process per shard,
                each with its own -Zmiri-seed (scheduler / weak-memory / weak-CAS randomness).
   kind "asan": cargo +nightly build -Zsanitizer=address into target-asan, then native shards.
+  kind "tsan": cargo +nightly build -Zsanitizer=thread -Zbuild-std into target-tsan, then native shards
+               (happens-before race detection at 5-10x; the unchanged tree is report-free).
 
 Anything else that makes a sanitizer process die (unsupported operation in Miri, timeout, OOM)
 is a note (inconclusive), never a violation.
@@ -29,28 +31,41 @@ def _slug(s, n=60):
     return s[:n].rstrip("-")
 
 
+def _clean_fn(fn):
+    fn = re.sub(r"::h[0-9a-f]{16}$", "", fn.strip())
+    fn = re.sub(r"\{closure[^}]*\}", "closure", fn)
+    # drop generic arguments, innermost first
+    for _ in range(12):
+        n = re.sub(r"(?<=[A-Za-z0-9_])(?:::)?<[^<>]*>", "", fn)
+        if n == fn:
+            break
+        fn = n
+    fn = re.sub(r"\s+as\s+[^>]*", "", fn)  # "<T as Trait>::m" -> "<T>::m"
+    fn = fn.replace("<", "").replace(">", "")
+    fn = re.sub(r"\s+", "", fn)
+    return fn[:80] or "?"
+
+
+SAN_FRAME = re.compile(r"#\d+ (?:0x[0-9a-f]+ in )?(.+?) (/repo/\S+?):(\d+)")
+
+
 def _first_repo_frame(text):
     """function name (generic arguments stripped) of the first backtrace frame located in /repo"""
     lines = text.splitlines()
     for i, l in enumerate(lines):
-        m = REPO_FRAME.search(l)
+        if "/repo/" not in l:
+            continue
+        m = SAN_FRAME.search(l)  # ASan / TSan: "#2 [0x.. in] func /repo/file.rs:12:3"
         if m:
-            fn = None
+            return _clean_fn(m.group(1))
+        m = REPO_FRAME.search(l)  # Miri: "N: func" on the previous line, "at /repo/file.rs:12:3" here
+        if m:
             for j in (i - 1, i):
                 if j >= 0:
                     fm = FN_FRAME.match(lines[j])
                     if fm:
-                        fn = fm.group(1)
-                        break
-            if not fn:
-                # asan style: "#3 0x... in fibre::mpmc::... /repo/..../x.rs:12:3"
-                am = re.search(r" in (\S+) /repo/", l)
-                fn = am.group(1) if am else os.path.basename(m.group(1))
-            fn = re.sub(r"::<.*", "", fn)
-            fn = re.sub(r"<[^<>]*>", "", fn)
-            fn = re.sub(r"::h[0-9a-f]{16}$", "", fn)
-            fn = re.sub(r"\{closure[^}]*\}", "closure", fn)
-            return fn.strip()[:80]
+                        return _clean_fn(fm.group(1))
+            return os.path.basename(m.group(1))
     return "no-repo-frame"
 
 
@@ -83,6 +98,14 @@ def classify_asan(text):
         kind = _slug(rest.split(" on ")[0].split(" (")[0], 40) or "report"
     tail = text[m.start():]
     return kind, m.group(0).strip(), _first_repo_frame(tail)
+
+
+def classify_tsan(text):
+    m = re.search(r"WARNING: ThreadSanitizer: ([^\n(]*)", text)
+    if not m:
+        return None
+    kind = _slug(m.group(1), 40) or "report"
+    return kind, m.group(0).strip(), _first_repo_frame(text[m.start():])
 
 
 def _violation(pid, tool, cls, errpath, seed, shard, cmd):
@@ -164,6 +187,25 @@ def run_special(kind, pid, tier, seed, eng, workdir, log, build):
             return {"p": p, "out": out, "err": errp, "i": i, "cmd": cmd, "t0": time.time()}
         classify = classify_asan
         grace = eng.get("grace", 90)
+    elif kind == "tsan":
+        tdir = os.path.join(HARNESS, "target-tsan")
+        ok = build([eng["pkg"]], profile="verif", toolchain="nightly", target_dir=tdir,
+                   extra_env={"RUSTFLAGS": "-Zsanitizer=thread --cfg excsn_fibre_verif"},
+                   extra_args=["-Zbuild-std", "--target", "x86_64-unknown-linux-gnu", "--bin", eng["bin"]])
+        if not ok:
+            notes.append("tsan build failed")
+            return results, notes
+        binp = os.path.join(tdir, "x86_64-unknown-linux-gnu", "verif", eng["bin"])
+        env["TSAN_OPTIONS"] = "halt_on_error=1 exitcode=66 report_signal_unsafe=0 second_deadlock_stack=1 history_size=4"
+
+        def launch(i, b):
+            out = os.path.join(workdir, f"tsan-{eng['bin']}-{i}.json")
+            errp = out.replace(".json", ".stderr")
+            cmd = [binp] + shard_cmd(i, out, b)
+            p = subprocess.Popen(cmd, cwd=HARNESS, env=env, stdout=subprocess.DEVNULL, stderr=open(errp, "w"))
+            return {"p": p, "out": out, "err": errp, "i": i, "cmd": cmd, "t0": time.time()}
+        classify = classify_tsan
+        grace = eng.get("grace", 120)
     else:
         notes.append(f"unknown engine kind {kind}")
         return results, notes
